@@ -136,12 +136,15 @@ type Invocation struct {
 	Args   []string          `json:"args"`
 	Cwd    string            `json:"cwd"` // world-relative
 	Env    map[string]string `json:"env,omitempty"`
-	Stdin  string            `json:"stdin,omitempty"`
+	// RawEnv: further environment entries passed as they are (execve accepts
+	// any strings: entries without "=", with an empty name, duplicates)
+	RawEnv []string `json:"raw_env,omitempty"`
+	Stdin  string   `json:"stdin,omitempty"`
 	// StdinBursts delivers stdin through a pipe in several writes (sizes in
 	// bytes, the rest in a last write) with a pause between them: a reader
 	// sees short reads, as with a slow producer
-	StdinBursts []int `json:"stdin_bursts,omitempty"`
-	Sched  *wire.Sched       `json:"schedule,omitempty"`
+	StdinBursts []int       `json:"stdin_bursts,omitempty"`
+	Sched       *wire.Sched `json:"schedule,omitempty"`
 	// StdoutTo: "" = pipe, otherwise an absolute path opened for writing (/dev/full)
 	StdoutTo string   `json:"stdout_to,omitempty"`
 	Injects  []Inject `json:"inject,omitempty"`
@@ -212,6 +215,7 @@ func Run(root string, inv *Invocation) (*Outcome, error) {
 	for _, k := range keys {
 		env = append(env, k+"="+inv.Env[k])
 	}
+	env = append(env, inv.RawEnv...)
 	statsPath := ""
 	if inv.Sched != nil && inv.Kind == "inst" {
 		env = append(env, "VERIF_SIM_MODE="+inv.Sched.Mode, "VERIF_SIM_SEED="+strconv.FormatUint(inv.Sched.Seed, 10),
